@@ -1,7 +1,7 @@
 (* C20 — Surfaces are total, bounded, deterministic folds over the frame stream.
    Statements only; proofs are in Proofs/{Tui,Headless,Summary,Views}Proofs.v.  Every theorem is closed by `exact`. *)
 From RipV Require Import Base.Prelude Model.Tui Proofs.TuiProofs Model.Headless Proofs.HeadlessProofs.
-From RipV Require Model.Summary Proofs.SummaryProofs Model.Views Proofs.ViewsProofs Gen.TuiCutSites.
+From RipV Require Model.Summary Proofs.SummaryProofs Model.Views Proofs.ViewsProofs Gen.TuiCutSites Gen.TuiAmbient.
 
 (* memory bounds after ANY frame sequence (any order, gaps, repeats, mixed streams, any capacities) *)
 Theorem c20_bounds : forall (max_frames : nat) (max_out : N) (af : bool) (evs : list ev),
@@ -249,6 +249,15 @@ Theorem c20_cut_sites_on_char_boundaries :
   TuiCutSites.gen_ok_cut_sites && TuiCutSites.gen_cut_fns_char_based && TuiCutSites.cut_sites_wf TuiCutSites.gen_cut_sites = true.
 Proof. exact TuiCutSites.gen_cut_sites_ok. Qed.
 Print Assumptions c20_cut_sites_on_char_boundaries.
+
+(* ---------- T1: "computed from the sequence of frames alone": the code of state.rs, frame_store.rs and summary.rs
+   (regenerated list, every run) mentions no clock, environment, randomness, file, process, socket, hash-ordered
+   collection, global or thread — the model's purity (update, push, event_summary are Gallina functions of their
+   arguments) is a property of the source, not only of the model ---------- *)
+Theorem c20_state_fold_reads_only_its_frames :
+  TuiAmbient.gen_ok_tui_ambient && (N.of_nat (length TuiAmbient.gen_tui_ambient) =? 0) = true.
+Proof. exact TuiAmbient.gen_tui_ambient_ok. Qed.
+Print Assumptions c20_state_fold_reads_only_its_frames.
 
 Example c20_headless_demo :
   headless_output [HToolStdout [120]; HDelta [104; 105]; HOther; HDelta []; HEnded; HDelta [33]] = [104; 105; 10].
